@@ -21,6 +21,7 @@ import MocVerif.Props.C07
 import MocVerif.Props.C18
 import MocVerif.Lemmas.ValidOps
 
+import MocVerif.Lemmas.Calendar
 namespace Moc.Cli.C19
 open Moc Moc.Cli Moc.C01
 
@@ -147,5 +148,48 @@ theorem cli_from_timestamps (w sh cap : Nat) (ts : List Nat) (x : Nat) :
 
 /-! Non-vacuity: a u16 file combined with a u64 file. -/
 example : (op2 Params.hpx .union 16 { depth := 1, items := [(0, 256)] } 64 { depth := 2, items := [(1 <<< 56, 2 <<< 56)] }).1 = 64 := rfl
+
+/-! ### `moc from timestamp --time-type isorfc|isosimple`: civil date → microseconds since JD 0 -/
+section Calendar
+open Moc.Calendar
+
+/-- **The date conversion of the tool counts days**: the Julian day number computed by
+    `gregorian2jd` (Richards' algorithm, as written in `crates/cli/src/lib.rs`) increases by exactly
+    one from any civil date of the Gregorian calendar to the next one — end of months, 28 / 29
+    February, century years included — and is anchored on 2000-01-01 = JD 2451545.  Together the two
+    facts determine it for every date: it IS the day count. -/
+theorem iso_day_count (y m d : Nat) (hm : 1 ≤ m ∧ m ≤ 12) (hd : 1 ≤ d ∧ d ≤ monthLen y m) :
+    gregorian2jd (nextDay y m d).1 (nextDay y m d).2.1 (nextDay y m d).2.2 = gregorian2jd y m d + 1 ∧
+    gregorian2jd 2000 1 1 = 2451545 :=
+  ⟨jd_next_day y m d hm hd, jd_anchor⟩
+
+/-- The same instant of the next day is exactly 86 400 000 000 microseconds later (whenever both are
+    in the time domain), so ISO timestamps are mapped to microseconds without drift. -/
+theorem iso_next_day_usec (y m d h mi s us t : Nat) (hm : 1 ≤ m ∧ m ≤ 12) (hd : 1 ≤ d ∧ d ≤ monthLen y m)
+    (ht : isoUsec y m d h mi s us = some t) (hdom : t + 86400000000 < 2 ^ 62) :
+    isoUsec (nextDay y m d).1 (nextDay y m d).2.1 (nextDay y m d).2.2 h mi s us = some (t + 86400000000) := by
+  have hj := jd_next_day y m d hm hd
+  have hpos : 1 ≤ gregorian2jd y m d := by
+    have := jd_eq y m d hm.2
+    unfold aOf cOf gOf tOf at this
+    omega
+  unfold isoUsec at ht ⊢
+  rw [hj]
+  simp only [] at ht ⊢
+  by_cases hlt : gregorian2jd y m d * 86400000000 + us + hms2usec h mi s - 43200000000 < 2 ^ 62
+  · rw [if_pos hlt] at ht
+    have ht' := Option.some.inj ht
+    have e : (gregorian2jd y m d + 1) * 86400000000 + us + hms2usec h mi s - 43200000000 = t + 86400000000 := by
+      rw [← ht']
+      clear hlt hdom ht ht' hj
+      have : 86400000000 ≤ gregorian2jd y m d * 86400000000 := by omega
+      omega
+    rw [e, if_pos hdom]
+  · rw [if_neg hlt] at ht
+    cases ht
+
+example : isoUsec 2020 1 1 0 0 0 0 = some 212444596800000000 := by decide
+
+end Calendar
 
 end Moc.Cli.C19
